@@ -10,6 +10,7 @@ mod c10;
 mod c11;
 mod c12;
 mod c13;
+mod c14;
 mod chan;
 mod c19;
 mod smoke;
@@ -29,6 +30,7 @@ pub fn build(prop: &str, tier: &str) -> Vec<Scenario> {
         "C11" => c11::build(quick),
         "C12" => c12::build(quick),
         "C13" => c13::build(quick),
+        "C14" => c14::build(quick),
         "C19" => c19::build(quick),
         _ => vec![],
     }
